@@ -166,6 +166,23 @@ def o_c01(recs):
             p = r.after.objects[k]
             if p is None or hashlib.sha1(p).digest() != k:
                 bad.append((i, "new object file %s is not the SHA-1 of its content" % k.hex()))
+        if st.name in ("add", "commit", "write-tree") and r.res.cls == "ok":
+            # whatever a successful add staged is stored and retrievable: kind blob, the file's bytes, Git's id;
+            # the trees and the commit a successful commit / write-tree names exist
+            idx_b, idx_a = staged(r.before) or {}, staged(r.after) or {}
+            for p_, oid in idx_a.items():
+                if idx_b.get(p_) != oid or st.name != "add":
+                    o = r.after.obj(oid)
+                    if o is None or o[0] != b"blob":
+                        bad.append((i, "%s succeeded but the blob %s staged for %r is not in the store" % (st.name, oid.hex()[:12], p_)))
+                        break
+                    if st.name == "add" and p_ in r.before.files and githash(r.before.files[p_]) == oid and o[1] != r.before.files[p_]:
+                        bad.append((i, "the stored blob of %r does not hold the file's bytes" % p_))
+                        break
+            if st.name == "write-tree":
+                for l in [l for l in r.res.out.split(b"\n") if re.fullmatch(rb"[0-9a-f]{40}", l)]:
+                    if r.after.obj(bytes.fromhex(l.decode())) is None:
+                        bad.append((i, "write-tree printed %s, which is not in the store" % l.decode()[:12]))
         if st.name == "hash-object" and r.res.cls == "ok":
             exp = []
             for a in st.argv[1:]:
